@@ -18,6 +18,11 @@
   "either yields a host list or fails cleanly"     create_returns                     every text, D15+D18 on
                                                    create_ok_iff (EXACTLY which       every text, repaired
                                                    texts yield a list)
+  the same against the INDEPENDENT reader of       create_iff_classify (accepted ⇔    EVERY BYTE STRING,
+   WHOLE texts (`Spec.classify`: its own bracket    the spec finds no problem),       repaired
+   matcher, word splitter, item reader) — C15 and   create_hosts_classify (and then
+   C01 in one statement                             the hosts are the spec's
+                                                   expansion), create_refines_classify
   "never touches memory out of bounds"             ranges_in_bounds (ranges[10240]),  every text, every cfg
                                                    host_buffer_is_snprintf,
                                                    next_buffer_is_snprintf (explicit
@@ -45,11 +50,14 @@
   the same, against the INDEPENDENT reader of      item_refines_spec                  every item text
    Hostlist/Spec.lean (what checks/c15.py tests)
 
+  `pdsh -w` and a comma-word whose parse fails         cli_drops_failed_word (witness of the    `b,a[1`
+   WITHOUT a diagnostic (open finding                   open finding: the word is left out,
+   F15-CLI-WORD-DROPPED)                                pdsh goes on)
+
   NOT PROVED: the CPU / memory ceilings of the compiled code and the absence of out-of-bounds
   accesses in the C text itself (pointer arithmetic inside the strdup'ed copy) are observed by the
-  correspondence (ASan/UBSan, per-call limits), the model works on lists; `create_ok_iff` is
-  stated with the model's own tokenizer (`tokens`), not yet against `Spec.classify`'s reader of
-  whole texts (the item level is: `item_refines_spec`); glibc `strtoul`/`snprintf` are modelled.
+  correspondence (ASan/UBSan, per-call limits), the model works on lists; glibc `strtoul`/`snprintf`
+  are modelled.  (`Spec.classify` ↔ `create` for whole texts IS proved now: `create_iff_classify`.)
 -/
 import PdshVerif.Hostlist.LemmasParse
 import PdshVerif.Hostlist.LemmasCreate
@@ -59,6 +67,7 @@ import PdshVerif.Hostlist.LemmasAccept
 import PdshVerif.Hostlist.LemmasBounds
 import PdshVerif.Hostlist.LemmasGood
 import PdshVerif.Hostlist.LemmasUnbalanced
+import PdshVerif.Hostlist.LemmasClassify
 
 namespace PdshVerif.C15
 open PdshVerif.Hostlist PdshVerif.Gen
@@ -437,6 +446,62 @@ theorem unbalanced_text_fails (cfg : Cfg) (h15 : cfg.fixUlongMax = true) (h16 : 
     (hu : Spec.balanced 0 s = false) : ∃ e f, create cfg s = .null e f :=
   Hostlist.unbalanced_text_fails cfg h15 h16 h18 h22 s hu
 
+/-! ## against the independent spec, whole texts, EVERY BYTE STRING -/
+
+/-- ACCEPTED ⇔ WELL-FORMED.  For every byte string `s`: `hostlist_create` yields a list exactly when
+    the independent reader `Spec.classify` (Hostlist/Spec.lean, written without the model) finds no
+    problem in `s` — brackets that do not match, a range bound that is not a digit string, a
+    reversed range, more than 16384 hosts in a range, more than 10240 ranges in a group — and no
+    bound of a range within the limits reaches 2^64-1 (`note64₁`: the property text is silent there;
+    the code refuses such a range as "too many hosts", `item_refines_spec`) -/
+theorem create_iff_classify (cfg : Cfg) (h15 : cfg.fixUlongMax = true) (h16 : cfg.fixDigits = true)
+    (h18 : cfg.fixCurTok = true) (h22 : cfg.fixSuffixBal = true) (s : Str) :
+    (∃ h, create cfg s = .ok h) ↔ (Spec.classify s).problems = [] ∧ note64₁ s = false :=
+  Hostlist.create_iff_classify cfg h15 h16 h18 h22 s
+
+/-- … AND THEN THE HOSTS ARE THE SPEC'S EXPANSION: the list is well formed (counter exact, no
+    wrapped or empty record) and denotes exactly `(Spec.classify s).hosts₁` — every word in the
+    order written, prefix + numeral (width of the low bound as typed) + the rest verbatim, repeats
+    kept; `hostlist_count` is its length -/
+theorem create_hosts_classify (cfg : Cfg) (h15 : cfg.fixUlongMax = true) (h16 : cfg.fixDigits = true)
+    (h18 : cfg.fixCurTok = true) (h22 : cfg.fixSuffixBal = true) (h23 : cfg.fixHostBuf = true)
+    (s : Str) (h : HL) (hc : create cfg s = .ok h) :
+    h.Good ∧ h.hosts = (Spec.classify s).hosts₁ ∧ h.count = (Spec.classify s).hosts₁.length :=
+  Hostlist.create_hosts_classify cfg h15 h16 h18 h22 h23 s h hc
+
+/-- C15 + C01 IN ONE STATEMENT, every byte string: well-formed for the spec ⇒ a list that denotes
+    the spec's expansion; anything else ⇒ NULL with an errno.  No third outcome, no other hosts. -/
+theorem create_refines_classify (cfg : Cfg) (h15 : cfg.fixUlongMax = true) (h16 : cfg.fixDigits = true)
+    (h18 : cfg.fixCurTok = true) (h22 : cfg.fixSuffixBal = true) (h23 : cfg.fixHostBuf = true) (s : Str) :
+    ((Spec.classify s).problems = [] ∧ note64₁ s = false →
+      ∃ h, create cfg s = .ok h ∧ h.Good ∧ h.hosts = (Spec.classify s).hosts₁) ∧
+    (¬ ((Spec.classify s).problems = [] ∧ note64₁ s = false) → ∃ e f, create cfg s = .null e f) := by
+  constructor
+  · intro hw
+    obtain ⟨h, hc⟩ := (create_iff_classify cfg h15 h16 h18 h22 s).mpr hw
+    obtain ⟨g, hh, _⟩ := create_hosts_classify cfg h15 h16 h18 h22 h23 s h hc
+    exact ⟨h, hc, g, hh⟩
+  · intro hn
+    rcases create_returns cfg h15 h18 s with ⟨h, hc⟩ | hnull
+    · exact absurd ((create_iff_classify cfg h15 h16 h18 h22 s).mp ⟨h, hc⟩) hn
+    · exact hnull
+
+/-! ## what `pdsh -w` does with a word whose parse fails (open finding F15-CLI-WORD-DROPPED) -/
+
+/-- THE FAILURE OF ONE COMMA-WORD IS NOT THE FAILURE OF `-w` (code as found, every variant of
+    hostlist.c): the argument `b,a[1` has unbalanced brackets and `hostlist_create` refuses it as
+    a whole (EINVAL, no diagnostic) — but opt.c hands every comma-word to `hostlist_push` on its
+    own and does not look at the result, so pdsh goes on with `b`.  The property text asks that
+    unbalanced brackets make the parse fail; checks/c15.py reports every such run of the real pdsh
+    (signature `cli-unbalanced-accepted:word-dropped`); proposed patch:
+    findings/C15-CLI-WORD-DROPPED.patch. -/
+theorem cli_drops_failed_word :
+    create Cfg.repaired "b,a[1".toList = .null EINVAL .none ∧
+    Spec.balanced 0 "b,a[1".toList = false ∧
+    (match cliTargets Cfg.repaired "b,a[1".toList with
+      | .ok (some h) => some h.hosts | _ => none) = some ["b".toList] := by
+  decide
+
 /-! ## limits and bounds that hold in EVERY variant, for every text -/
 
 /-- `struct _range ranges[MAX_RANGES]`: the parser writes `ranges[count++]` only for
@@ -526,4 +591,15 @@ example : ¬ ∃ h, create Cfg.repaired "a[1-3] b]".toList = .ok h := by
   rw [PdshVerif.C15.create_ok_iff Cfg.repaired rfl rfl rfl rfl]; decide
 example : ∃ e f, create Cfg.repaired "a[1-3] b]".toList = .null e f :=
   PdshVerif.C15.unbalanced_text_fails Cfg.repaired rfl rfl rfl rfl _ (by decide)
+/-- whole texts through `create_refines_classify`: accepted with the spec's hosts … -/
+example : ∃ h, create Cfg.repaired "a[1-2,07]x, b".toList = .ok h ∧
+    h.hosts = ["a1x".toList, "a2x".toList, "a07x".toList, "b".toList] := by
+  obtain ⟨h, hc, _, hh⟩ := (PdshVerif.C15.create_refines_classify Cfg.repaired rfl rfl rfl rfl rfl
+    "a[1-2,07]x, b".toList).1 (by decide)
+  exact ⟨h, hc, by rw [hh]; decide⟩
+/-- … or refused: a reversed range, a bound ≥ 2^64 in a small range -/
+example : ∃ e f, create Cfg.repaired "a[3-1]".toList = .null e f :=
+  (PdshVerif.C15.create_refines_classify Cfg.repaired rfl rfl rfl rfl rfl _).2 (by decide)
+example : ∃ e f, create Cfg.repaired "a[18446744073709551615]".toList = .null e f :=
+  (PdshVerif.C15.create_refines_classify Cfg.repaired rfl rfl rfl rfl rfl _).2 (by decide)
 end Examples15
